@@ -218,13 +218,10 @@ macro_rules! prefix_array_set {
                 }
 
                 if let (_, Some(index)) = self.index(&value) {
-                    unsafe {
-                        let ptr = self.values.as_mut_ptr();
-                        let src_ptr = ptr.add(index);
-                        let dest_ptr = ptr.add(index + 1);
-                        // move the bytes to create space for the new value
-                        std::ptr::copy(src_ptr, dest_ptr, self.len() - index);
-                    }
+                    // move the values to create space for the new one; the range is
+                    // checked against the slice, since the length prefix comes from
+                    // the buffer and may claim more values than the buffer holds
+                    self.values.copy_within(index..self.len(), index + 1);
                     // insert the new value
                     self.values[index] = value;
                     *self.length += 1;
@@ -258,13 +255,9 @@ macro_rules! prefix_array_set {
                     // only need to copy bytes around if the element being removed
                     // is not the last element in the array
                     if index < self.len() - 1 {
-                        unsafe {
-                            let ptr = self.values.as_mut_ptr();
-                            let src_ptr = ptr.add(index + 1);
-                            let dest_ptr = ptr.add(index);
-                            // move the bytes after the value being removed
-                            std::ptr::copy(src_ptr, dest_ptr, self.len() - index - 1);
-                        }
+                        // move the values after the one being removed (range checked
+                        // against the slice, see `insert`)
+                        self.values.copy_within(index + 1..self.len(), index);
                     }
                     *self.length -= 1;
                     return Some(value);
